@@ -36,6 +36,12 @@ impl<AS: GuestAddressSpace> Net<AS> {
             mem,
         })
     }
+
+    /// Create an instance on top of an already opened descriptor (verification hook).
+    #[cfg(feature = "verif-hooks")]
+    pub fn with(fd: File, mem: AS) -> Self {
+        Net { fd, mem }
+    }
 }
 
 impl<AS: GuestAddressSpace> VhostNet for Net<AS> {
